@@ -671,3 +671,127 @@ def add(rep, ctx):
         rep.add(og)
     rep.extra.setdefault("glob_translation", {"globs": len(menu), "by_status": cnt, "queries": nq})
     selector_patterns(rep, drv, flags["dotall"])
+    try:
+        for o in selector_logic(rep, prog):
+            if o.verdict == "violated":
+                found = selector_differential(drv)
+                if found:
+                    o.stats["traces_validated"] = 1
+                    o.cex = dict(o.cex or {}, native=found[:4])
+                    o.detail += "; replayed natively: %s" % found[0]
+                else:
+                    o.verdict = "inconclusive"
+                    o.detail += "; the native selector differential found no observable difference"
+            rep.add(o)
+    except Inconclusive as ex:
+        o = Obligation("selector logic", "E2 mirsym/z3")
+        o.verdict, o.detail = "inconclusive", str(ex)
+        rep.add(o)
+
+
+# ------------------------------------------------------------------ selector logic (include names / include paths / exclude paths)
+
+def selector_logic(rep, prog):
+    """PathSelector::matches_full_path / matches_dir over pattern lists of 0..2 elements each (list model): the verdict is the
+    documented boolean combination of the patterns' verdicts on the file name / the absolute path string"""
+    import listsum
+    import optsum
+    from summaries import deref_val
+    fields = struct_fields(prog, "selector.rs", "PathSelector")
+    try:
+        ib, inm, ipt, iex = (fields.index(n) for n in ("base_dir", "included_names", "included_paths", "excluded_paths"))
+    except ValueError:
+        raise Inconclusive("fields of PathSelector not found")
+    ex = dict(optsum.SUMMARIES)
+    ex.update(listsum.LIST)
+
+    def s_verdict(e, st, callee, args, dty):
+        # the verdict of one pattern is a free boolean, the same whenever the same pattern is asked the same question
+        who = deref_val(e, st, args[0])
+        nm = getattr(who, "name", None)
+        if nm is None:
+            return NotImplemented
+        return Bool(z3.Bool("%s(%s)" % (callee.rsplit("::", 1)[1], nm)))
+    ex[r"Pattern::(matches|matches_partially|matches_prefix|matches_path)$"] = s_verdict
+    inl = oblig.module_inliner(prog, "selector.rs", r"^$")
+    specs = [("matches_full_path", "Pattern::matches$", "Pattern::matches$", "a file is selected iff (no --name pattern or one matches its name) and (no --path pattern or one matches its path) and no --exclude pattern matches its path"),
+             ("matches_dir", "Pattern::matches_partially$", "Pattern::matches_prefix$", "a directory is entered iff (no --path pattern or one matches it partially) and no --exclude pattern matches a prefix of it")]
+    for meth, inc_pat, exc_pat, title in specs:
+        f = prog.method("PathSelector", meth)
+        verdict, detail, npaths, nq = "holds", "", 0, 0
+        enc = {}
+        o = Obligation("PathSelector::%s: %s" % (meth, title), "E2 mirsym/z3 (list model)", [], "0..2 patterns in each of the three lists (27 configurations), pattern verdicts free")
+        o.key = "selector:%s" % meth
+        for nn in (0, 1, 2):
+            for np_ in (0, 1, 2):
+                for nx in (0, 1, 2):
+                    if verdict != "holds":
+                        break
+                    eng = oblig.engine(prog, inline=inl, extra=ex, unroll=4)
+                    mk = lambda pre, n: mirsym.ListV(tuple(Lazy("%s%d" % (pre, i), "pattern::Pattern") for i in range(n)), "Vec")
+                    sel = Agg("PathSelector", {ib: Lazy("base", "Arc<Path>"), inm: mk("N", nn), ipt: mk("P", np_), iex: mk("X", nx)})
+                    ps = eng.run(f, args=[Ref("SEL", (), False), Lazy("p", f.args[1][1])], mem={"SEL": sel})
+                    enc.update(eng.encoded)
+                    for p in ps:
+                        npaths += 1
+                        if p.status in ("abort", "bound"):
+                            verdict, detail = "inconclusive", "lists %d/%d/%d: path %s %s" % (nn, np_, nx, p.status, p.note[:120])
+                            break
+                        if p.status != "return" or not isinstance(p.result, Bool):
+                            if eng.check(*p.pc) == z3.sat:
+                                verdict, detail = "violated", "lists %d/%d/%d: a feasible path ends with %s" % (nn, np_, nx, p.status)
+                                break
+                            continue
+                        st = mirsym.State()
+                        st.mem, st.pc = p.mem, list(p.pc)
+                        q_inc = "matches" if meth == "matches_full_path" else "matches_partially"
+                        q_exc = "matches" if meth == "matches_full_path" else "matches_prefix"
+                        sym = lambda nm: z3.Bool("%s(%s)" % (q_exc if nm.startswith("X") else q_inc, nm))
+                        names_ok = z3.BoolVal(True) if (nn == 0 or meth == "matches_dir") else z3.Or(*[sym("N%d" % i) for i in range(nn)])
+                        paths_ok = z3.BoolVal(True) if np_ == 0 else z3.Or(*[sym("P%d" % i) for i in range(np_)])
+                        excl_ok = z3.And(*[z3.Not(sym("X%d" % i)) for i in range(nx)]) if nx else z3.BoolVal(True)
+                        want = z3.And(names_ok, paths_ok, excl_ok)
+                        nq += 1
+                        # short-circuit evaluation: on a path where a pattern was not asked, the result must not depend on it,
+                        # i.e. the equality has to hold for both values of the fresh symbol (validity)
+                        if eng.check(*(list(p.pc) + [p.result.t != want])) != z3.unsat:
+                            verdict = "violated"
+                            detail = "with %d name / %d path / %d exclude patterns the verdict differs from the documented combination " % (nn, np_, nx)
+                            o.cex = {"lists": [nn, np_, nx], "path_condition": [str(c)[:100] for c in p.pc][:10]}
+                            break
+        o.functions = sorted("%s#%s" % (k[-60:], v) for k, v in enc.items())
+        o.queries = nq
+        o.stats = {"paths": npaths, "states": npaths, "transitions": nq}
+        if verdict == "holds" and npaths == 0:
+            verdict, detail = "inconclusive", "vacuous"
+        o.verdict, o.detail = verdict, detail
+        yield o
+
+
+def selector_differential(drv):
+    """native: real PathSelector against the documented combination on a small menu (replay of selector-logic counterexamples)"""
+    pats = ["-", "*.txt", "/t/a/**", "**/b*", "a/*"]
+    names = ["-", "*.txt", "b*"]
+    paths = ["/t/a/x.txt", "/t/a/b.bin", "/t/c/b.txt", "/t/a/d/e.txt", "/u/x.txt", "/t/a", "/t/c", "/t"]
+    found = []
+    for inc in pats:
+        for exc in pats:
+            for nm in names:
+                line = "SM %s %s %s %s %s" % (hx("/t"), hx(inc) if inc != "-" else "-", hx(exc) if exc != "-" else "-", hx(nm) if nm != "-" else "-", " ".join(hx(p) for p in paths))
+                out = drv.run(SEL_TEST, [line], "seld")
+                if not out or out[0] in ("ERR", "PANIC", "?"):
+                    continue
+                def rx(g):
+                    if g == "-":
+                        return None
+                    rel = not (g.startswith("/") or g.startswith("**"))
+                    return re.compile((re.escape("/t/") if rel else "") + _py_seq(globre.parse_glob(g), False), re.S)
+                ri, rx_, rn = rx(inc), rx(exc), (re.compile(_py_seq(globre.parse_glob(nm), False), re.S) if nm != "-" else None)
+                for p, cell in zip(paths, out[0].split()):
+                    want = (rn is None or rn.fullmatch(os.path.basename(p)) is not None) and (ri is None or ri.fullmatch(p) is not None) and \
+                        (rx_ is None or rx_.fullmatch(p) is None)
+                    if (cell[0] == "1") != want:
+                        found.append({"include": inc, "exclude": exc, "name": nm, "path": p, "real_matches_full_path": cell[0] == "1", "documented": want})
+                        if len(found) > 5:
+                            return found
+    return found
